@@ -254,6 +254,10 @@ def monitor_case(ops, obs, which):
         if r.startswith("panic") or r.startswith("trap") or r.startswith("sig") or r == "diverge":
             if not (t[0] == "set_len"):
                 V("C04", "panic", f"{ops[i].strip()} -> {r}", i)
+            # C09: a read-only arena rejects mutating calls with an error or the documented panic of
+            # `reserved_slice_mut`, never with a crash
+            if fstate.get("ro_state") and not fstate["closed"] and (r.startswith("sig") or (r.startswith("panic") and t[0] != "wres")):
+                V("C09", "ro-crash", f"{ops[i].strip()} on a read-only arena -> {r}", i)
             if "al" not in o:
                 break
         # ---- file operations (C05 / C09)
